@@ -714,6 +714,14 @@ class SquareMatrices(SquareMatrixSamplingSet):
 
     def make_det_zero(self, array):
         """Modify an array to have zero determinant, or raise Retry if not possible"""
+        if self.config['symmetry'] == 'diagonal':
+            # Choose a random diagonal entry to be zero
+            # (This comes before the shortcut below: the determinant of a large diagonal matrix
+            # with entries below 1 is tiny without the matrix being anywhere near singular)
+            index = np.random.randint(self.config['dimension'])
+            array[index, index] = 0
+            return array
+
         if np.abs(np.linalg.det(array)) < 5e-13:
             # This is close enough to zero for our purposes!
             # This occurs for real, antisymmetric matrices in odd dimensions, for example.
@@ -723,11 +731,7 @@ class SquareMatrices(SquareMatrixSamplingSet):
         index = np.random.randint(self.config['dimension'])
 
         # What's our symmetry?
-        if self.config['symmetry'] == 'diagonal':
-            # Choose a random diagonal entry to be zero
-            array[index, index] = 0
-            return array
-        elif ((self.config['symmetry'] == 'symmetric' and not self.config['complex'])
+        if ((self.config['symmetry'] == 'symmetric' and not self.config['complex'])
               or self.config['symmetry'] == 'hermitian'):
             # Eigenvalues are all real - use special algorithm to compute eigenvalues
             eigenvalues = np.linalg.eigvalsh(array)
